@@ -262,3 +262,170 @@ Proof.
            assert (rk (kp i) < rk j)%nat; [|lia]. apply (Hr (OProc p pp)); [exact Hp|by apply kp_provided|exact Hjr].
 Qed.
 End Dup.
+
+(* ------------------------------------------------------------------ Part 2: Runtime.dup_effect is that rewriting *)
+Require Import Grits.proofs.DupSubst.
+
+Lemma fresh_row_eq self fn : forall k p,
+  fresh_row self p fn k =
+  (map (fun i => mkName (ident fn) false (pol fn) (nty fn) (Some (self ++ [(pr_next p + i)%nat]))) (seq 0 k),
+   Proc (pr_provs p) (pr_body0 p) (pr_next p + k)).
+Proof.
+  induction k as [|k IH]; intros p; cbn [fresh_row].
+  - destruct p as [a b n0]. cbn. by rewrite Nat.add_0_r.
+  - unfold fresh_chan. rewrite IH. cbn [pr_next pr_provs pr_body0 seq map]. rewrite Nat.add_0_r. f_equal; [|f_equal; lia].
+    f_equal. rewrite <- seq_shift, map_map. apply map_ext. intros i.
+    assert (E : (S (pr_next p) + i = pr_next p + S i)%nat) by lia. rewrite E. reflexivity.
+Qed.
+
+Lemma fresh_matrix_eq self n : forall fns p,
+  fresh_matrix self p fns n =
+  (imap (fun f fn => map (fun i => mkName (ident fn) false (pol fn) (nty fn) (Some (self ++ [(pr_next p + (n * f + i))%nat]))) (seq 0 n)) fns,
+   Proc (pr_provs p) (pr_body0 p) (pr_next p + n * length fns)).
+Proof.
+  induction fns as [|fn r IH]; intros p; cbn [fresh_matrix].
+  - destruct p as [a b n0]. cbn. f_equal. f_equal. lia.
+  - rewrite fresh_row_eq, IH. cbn [pr_next pr_provs pr_body0 length]. rewrite imap_cons. f_equal; [|f_equal; lia]. f_equal.
+    + apply map_ext. intros i. assert (E : (n * 0 + i = i)%nat) by lia. rewrite E. reflexivity.
+    + apply imap_ext. intros f x _. cbn [compose]. apply map_ext. intros i.
+      assert (E : (pr_next p + n + (n * f + i) = pr_next p + (n * S f + i))%nat) by lia. rewrite E. reflexivity.
+Qed.
+
+Lemma map_combine_imap {A B C} (g : A * B -> C) : forall (l : list A) (r : nat -> A -> B),
+  map g (combine l (imap r l)) = imap (fun f x => g (x, r f x)) l.
+Proof.
+  induction l as [|a l IH]; intros r; [done|]. rewrite !imap_cons. cbn [combine map]. f_equal. by rewrite IH.
+Qed.
+
+Lemma cids_drow p pp f fn : cids_of (drow p pp f fn) = map (dkn p pp f) (seq 0 (length (pr_provs pp))).
+Proof.
+  unfold drow, cids_of. induction (seq 0 (length (pr_provs pp))) as [|i l IH]; [done|]. cbn. by rewrite IH.
+Qed.
+Lemma flat_cids_rows p pp : forall (l : list name) k,
+  flat_map cids_of (imap (fun f => drow p pp (k + f)) l) =
+  flat_map (fun f => map (dkn p pp f) (seq 0 (length (pr_provs pp)))) (seq k (length l)).
+Proof.
+  induction l as [|a l IH]; intros k; [reflexivity|]. rewrite imap_cons. cbn [flat_map length seq]. f_equal.
+  - rewrite cids_drow. by rewrite Nat.add_0_r.
+  - rewrite <- (IH (S k)). f_equal. apply imap_ext. intros f x _. cbn. f_equal. lia.
+Qed.
+
+(* ------------------------------------------------------------------ the free names of an affine body have different channels *)
+Notation chs l := (flat_map name_chans l).
+
+Lemma chs_filter_nodup l : NoDup (chs l) -> NoDup (chs (filter (fun n => negb (is_self n)) l)).
+Proof.
+  induction l as [|a l IH]; simpl; [done|]. intros H. apply NoDup_app_inv in H as (H1 & H2 & H3).
+  destruct (negb (is_self a)); simpl; [|by apply IH]. apply NoDup_app_intro'; [done|by apply IH|].
+  intros x Hx Hx'. apply (H3 x Hx). apply in_flat_map in Hx' as (y & Hy & Hxy). apply filter_In in Hy as [Hy _].
+  apply in_flat_map. eauto.
+Qed.
+
+Lemma fold_append_filter : forall l acc,
+  fold_left (fun acc n => append_if_not_self n acc) l acc = acc ++ filter (fun n => negb (is_self n)) l.
+Proof.
+  induction l as [|a l IH]; intros acc; simpl; [by rewrite app_nil_r|]. rewrite IH. unfold append_if_not_self.
+  destruct (is_self a); simpl; [done|]. by rewrite <- app_assoc.
+Qed.
+
+Lemma leaf_nodup sh (ns : list name) : NoDup (flat_map (uname sh) ns) -> NoDup (chs (filter (fun n => negb (is_self n)) ns)).
+Proof.
+  assert (E : kcs (flat_map (uname sh) ns) = chs ns).
+  { induction ns as [|a l IH]; simpl; [done|]. by rewrite kcs_app, kcs_uname, IH. }
+  intros H. apply chs_filter_nodup. apply NoDup_kcs in H. by rewrite <- E.
+Qed.
+
+Lemma free_names_nodup f : affr None f -> NoDup (chs (free_names f)).
+Proof.
+  induction f as [a b c0|p0 c0 fr k IHk|a l c0|fr bs|x b IHb k IHk|c0|c0 k IHk|a b d|x y fr k IHk|fn args pt|a c0|x fr k IHk|c0 k IHk|l k IHk];
+    intros Ha; pose proof (affr_aff _ _ Ha) as Haf; unfold aff in Haf; simpl in Haf.
+  - (* FSend *) apply Forall_inv in Haf.
+    assert (E : free_names (FSend a b c0) = filter (fun n => negb (is_self n)) [a; b; c0]).
+    { simpl. unfold append_if_not_self. destruct (is_self a), (is_self b), (is_self c0); reflexivity. }
+    rewrite E. apply (leaf_nodup None). simpl. by rewrite app_nil_r.
+  - simpl. apply merge_names_nodup, small_nodup.
+  - (* FSel *) apply Forall_inv in Haf.
+    assert (E : free_names (FSel a l c0) = filter (fun n => negb (is_self n)) [a; c0]).
+    { simpl. unfold append_if_not_self. destruct (is_self a), (is_self c0); reflexivity. }
+    rewrite E. apply (leaf_nodup None). simpl. by rewrite app_nil_r.
+  - simpl. apply free_names_brs_nodup, small_nodup.
+  - simpl. apply merge_names_nodup, merge_names_nodup. constructor.
+  - simpl. apply small_nodup.
+  - simpl. apply merge_names_nodup, small_nodup.
+  - (* FFwd *) apply Forall_inv in Haf.
+    assert (E : free_names (FFwd a b d) = filter (fun n => negb (is_self n)) [a; b]).
+    { simpl. unfold append_if_not_self. destruct (is_self a), (is_self b); reflexivity. }
+    rewrite E. apply (leaf_nodup None). simpl. by rewrite app_nil_r.
+  - simpl. apply merge_names_nodup, small_nodup.
+  - (* FCall *) apply Forall_inv in Haf. simpl. rewrite fold_append_filter. simpl. by apply (leaf_nodup None).
+  - (* FCast *) apply Forall_inv in Haf.
+    assert (E : free_names (FCast a c0) = filter (fun n => negb (is_self n)) [a; c0]).
+    { simpl. unfold append_if_not_self. destruct (is_self a), (is_self c0); reflexivity. }
+    rewrite E. apply (leaf_nodup None). simpl. by rewrite app_nil_r.
+  - simpl. apply merge_names_nodup, small_nodup.
+  - simpl. apply merge_names_nodup, small_nodup.
+  - (* FPrint *) simpl. apply IHk. simpl in Ha. tauto.
+Qed.
+
+Section DupStep.
+Variable D : tenv.
+Variable F : list fundef.
+Variable teq : sty -> sty -> Prop.
+Hypothesis Hteq : teq_laws D teq.
+
+Lemma dup_effect_eq p pp : length (pr_provs pp) <> 1%nat ->
+  let fns := free_names (pr_body0 pp) in
+  let rows := imap (drow p pp) fns in
+  dup_effect p pp = EOk (Eff Finish (dss p pp fns (fun i => subst_col fns rows i (pr_body0 pp))) (dkns p pp fns) [] []).
+Proof.
+  intros Hn fns rows. unfold dup_effect. destruct (length (pr_provs pp) =? 1)%nat eqn:E; [apply Nat.eqb_eq in E; done|].
+  rewrite fresh_matrix_eq. fold fns.
+  assert (Hrows : imap (fun f fn => map (fun i => mkName (ident fn) false (pol fn) (nty fn)
+                     (Some (p ++ [(pr_next pp + (length (pr_provs pp) * f + i))%nat]))) (seq 0 (length (pr_provs pp)))) fns = rows) by reflexivity.
+  rewrite Hrows. f_equal. unfold dss, dkns. f_equal.
+  - f_equal. rewrite (map_combine_imap _ fns (drow p pp)). reflexivity.
+  - unfold rows. exact (flat_cids_rows p pp fns 0).
+Qed.
+
+Theorem topo_dup_step Δ c p pp md c' :
+  cfg_typed D F teq Δ c -> Topo c -> ns_ok c -> procs c !! p = Some pp -> affr None (pr_body0 pp) ->
+  NoDup (cids_of (pr_provs pp)) -> action_of md D pp = ADup ->
+  step md D F c (Run p) = SStep c' -> Topo c'.
+Proof.
+  intros Hc Ht Hns Hp Haff Hnd Ha Hs.
+  cbn [step] in Hs. rewrite Hp, Ha in Hs.
+  assert (Hn1 : length (pr_provs pp) <> 1%nat).
+  { apply action_dup_multi in Ha. unfold multi in Ha. apply Nat.ltb_lt in Ha. lia. }
+  rewrite (dup_effect_eq p pp Hn1) in Hs. cbn [eff_step] in Hs. injection Hs as <-.
+  set (fns := free_names (pr_body0 pp)). set (rows := imap (drow p pp) fns).
+  destruct (ct_procs D F teq Δ c Hc p pp Hp) as (s & rs & Hne & Hprovs & Hty).
+  rewrite Forall_forall in Hprovs.
+  set (kp := fun i => match pr_provs pp !! i with Some pr => match chan pr with Some k => k | None => [] end | None => [] end).
+  assert (Hkp : forall i pr, pr_provs pp !! i = Some pr -> chan pr = Some (kp i) /\ is_Some (Δ !! kp i)).
+  { intros i pr Hi. unfold kp. rewrite Hi. destruct (Hprovs pr) as (c0 & t' & Hc0 & Ht' & _); [apply elem_In; eapply elem_of_list_lookup_2; eauto|].
+    rewrite Hc0. eauto. }
+  apply (topo_dup_rewrite c p pp fns (fun i => subst_col fns rows i (pr_body0 pp)) kp); try done.
+  - intros i pr Hi. by destruct (Hkp i pr Hi).
+  - intros i Hi. destruct (lookup_lt_is_Some_2 _ i Hi) as [pr Hpr]. destruct (Hkp i pr Hpr) as [_ Hd]. by apply (ct_dom D F teq Δ c Hc).
+  - intros i i' Hi Hi' E. destruct (lookup_lt_is_Some_2 _ i Hi) as [pr Hpr]. destruct (lookup_lt_is_Some_2 _ i' Hi') as [pr' Hpr'].
+    destruct (Hkp i pr Hpr) as [H1 _]. destruct (Hkp i' pr' Hpr') as [H2 _].
+    apply (nodup_flat_map_idx' (fun n : name => match chan n with Some c0 => [c0] | None => [] end) (pr_provs pp) Hnd i i' pr pr' (kp i) Hpr Hpr').
+    + rewrite H1. by left.
+    + rewrite H2, E. by left.
+  - intros a Hle. exact (fresh_above D F teq Δ c p pp Hc Hns Hp a Hle).
+  - (* the copies mention only the fresh channels of their column *)
+    intros i Hi j Hj. apply elem_In in Hj.
+    destruct (subst_col_fresh rows (pr_body0 pp) i j) as (f & row & c0 & Hrow & Hc0 & Hjc); try done.
+    + eapply typed_wfn; eauto.
+    + rewrite Forall_forall. intros row Hrow. apply elem_In, elem_of_lookup_imap in Hrow as (f & fn & -> & _).
+      unfold drow. exists (mkName (ident fn) false (pol fn) (nty fn) (Some (dkn p pp f i))). split; [|reflexivity]. rewrite nth_error_map. rewrite (nth_error_nth' _ 0%nat) by (by rewrite seq_length).
+      rewrite seq_nth by done. reflexivity.
+    + unfold rows. by rewrite imap_length.
+    + unfold rows in Hrow. rewrite list_lookup_imap in Hrow. destruct (fns !! f) as [fn|] eqn:Efn; [|discriminate]. injection Hrow as <-.
+      unfold drow in Hc0. rewrite nth_error_map in Hc0. rewrite (nth_error_nth' _ 0%nat) in Hc0 by (by rewrite seq_length).
+      rewrite seq_nth in Hc0 by done. cbn in Hc0. injection Hc0 as <-. cbn in Hjc. destruct Hjc as [<-|[]].
+      exists f. split; [by apply lookup_lt_Some in Efn|reflexivity].
+  - intros fn j Hfn Hj. apply elem_In. eapply free_names_chans; eauto.
+  - by apply free_names_nodup.
+Qed.
+End DupStep.
